@@ -3,6 +3,7 @@ package checks
 import (
 	"encoding/json"
 	"fmt"
+	"os"
 	"strings"
 	"time"
 
@@ -60,7 +61,17 @@ type c01Run struct {
 func (r *c01Run) conn(name string) *c01Conn {
 	cn := r.conns[name]
 	if cn == nil || cn.dead {
-		k, err := r.b.Dial()
+		var k *refctl.Ctl
+		var err error
+		if name == "L" {
+			// L connects from a port that can be bound again (for the adversary's take-over-L-port)
+			k, err = refctl.DialRebindable(r.b.W.Addr)
+			if err == nil {
+				r.b.conns = append(r.b.conns, k)
+			}
+		} else {
+			k, err = r.b.Dial()
+		}
 		if err != nil {
 			r.c.Infra(err.Error())
 			return nil
@@ -214,6 +225,12 @@ func (r *c01Run) step(ev string) bool {
 		time.Sleep(3 * time.Millisecond) // let the accessory notice the reset
 		for attempt := 0; attempt < 5; attempt++ {
 			k, err := refctl.DialFrom(r.b.W.Addr, local)
+			if err != nil && attempt == 4 {
+				r.c.Note("take-over-L-port: could not connect from " + local + ": " + err.Error())
+				if os.Getenv("C01_DEBUG") != "" {
+					fmt.Fprintln(os.Stderr, "takeover failed", local, err)
+				}
+			}
 			if err == nil {
 				r.b.conns = append(r.b.conns, k)
 				r.conns[who] = &c01Conn{k: k, takeover: true}
@@ -316,6 +333,11 @@ func (r *c01Run) after(ev string) bool {
 		}
 		if !r.refused(name, "barrier", m, evs, nil) {
 			return false
+		}
+	}
+	if os.Getenv("C01_DEBUG") != "" {
+		for n, cn := range r.conns {
+			fmt.Fprintln(os.Stderr, "after", ev, n, "dead", cn.dead, "takeover", cn.takeover, "local", cn.k.Local)
 		}
 	}
 	got := r.b.AppState()
